@@ -9,6 +9,7 @@ from symx.core import explore, coverage_certificate, satisfiable, model_value
 from harness import ctrl
 
 PID = 'C07'
+BOUNDS = {'quick': dict(parallel_steps='<=3', levels='<=3', Kmax='<=3', nsweeps='<=2 (small cases)'), 'thorough': dict(parallel_steps='<=4', levels='<=3', Kmax='<=4', nsweeps='<=2')}
 
 
 def describe(rep):
